@@ -56,6 +56,72 @@ pub fn sched_lines(log: &[(std::thread::ThreadId, Event)], in_pool: bool) -> Vec
         .collect()
 }
 
+
+/// One `nest_log` request for a whole event log: every evaluator (collector), evaluation job (forker)
+/// and trial (pure) of every image, with the threads they ran on, as spawn / start / finish steps of the
+/// nested fork-join model. Returns the request and the number of jobs.
+pub fn nest_line(log: &[(std::thread::ThreadId, Event)]) -> Option<(String, usize)> {
+    let mut threads: std::collections::HashMap<std::thread::ThreadId, usize> = Default::default();
+    let mut ids: std::collections::HashMap<String, usize> = Default::default();
+    let mut toks: Vec<String> = vec![];
+    let mut tid_of = |t: &std::thread::ThreadId| -> usize {
+        let n = threads.len();
+        *threads.entry(*t).or_insert(n)
+    };
+    let mut id_of = |k: String| -> (usize, bool) {
+        let n = ids.len();
+        match ids.get(&k) {
+            Some(v) => (*v, false),
+            None => { ids.insert(k, n); (n, true) }
+        }
+    };
+    for (tid, e) in log {
+        let w = tid_of(tid);
+        match e {
+            Event::Submit { eval, nth, .. } => {
+                let (c, fresh) = id_of(format!("c{}", eval));
+                if fresh {
+                    // the evaluator's owner starts its spawn-and-collect section here
+                    toks.push(format!("Q:{}:-:c:{}", c, w));
+                    toks.push(format!("S:{}:{}", c, w));
+                }
+                let (j, _) = id_of(format!("j{}:{}", eval, nth));
+                toks.push(format!("Q:{}:{}:f:{}", j, c, w));
+            }
+            Event::JobStart { eval, nth } => {
+                let (j, _) = id_of(format!("j{}:{}", eval, nth));
+                toks.push(format!("S:{}:{}", j, w));
+            }
+            Event::TrialStart { eval, nth, filter } => {
+                let (j, _) = id_of(format!("j{}:{}", eval, nth));
+                let (t, _) = id_of(format!("t{}:{}:{}", eval, nth, *filter as u8));
+                toks.push(format!("Q:{}:{}:p:{}", t, j, w));
+                toks.push(format!("S:{}:{}", t, w));
+            }
+            Event::Finish { eval, nth, filter, .. } | Event::Skipped { eval, nth, filter } => {
+                let (t, _) = id_of(format!("t{}:{}:{}", eval, nth, *filter as u8));
+                toks.push(format!("F:{}:{}", t, w));
+            }
+            Event::JobEnd { eval, nth } => {
+                let (j, _) = id_of(format!("j{}:{}", eval, nth));
+                toks.push(format!("F:{}:{}", j, w));
+            }
+            Event::CollectEnd { eval } => {
+                let (c, fresh) = id_of(format!("c{}", eval));
+                if !fresh {
+                    toks.push(format!("F:{}:{}", c, w));
+                }
+            }
+            _ => {}
+        }
+    }
+    if toks.is_empty() {
+        return None;
+    }
+    let n = toks.iter().filter(|t| t.starts_with("Q:")).count();
+    Some((format!("nest_log {}", toks.join(";")), n))
+}
+
 pub fn corr(ctx: &mut Ctx) {
     let mut rng = Rng::new(ctx.seed ^ 0x5C4ED);
     let mut st = Stats::default();
@@ -136,6 +202,17 @@ pub fn corr(ctx: &mut Ctx) {
         let in_pool = shape <= 1;
         let mut lines = sched_lines(&events[..main_events], in_pool);
         lines.extend(sched_lines(&events[main_events..], true));
+        // the whole log of the main phase as one execution of the nested fork-join model (collectors, evaluation
+        // jobs and trials on the threads' stacks): every event must be an enabled step and nothing is left open
+        if let Some((req, n)) = nest_line(&events[..main_events]) {
+            st.count("nest_logs");
+            st.add("nest_jobs", n as u64);
+            if req.len() < 400_000 {
+                ctx.line(&req, &format!("ok jobs={} unfinished=0", n));
+            } else {
+                st.count("nest_log_too_long_skipped");
+            }
+        }
         for (req, ans) in lines {
             // whether the collector is a pool worker differs per evaluator in shape 2/3 (external
             // callers never start jobs themselves: the model rejects a local start there)
